@@ -7,16 +7,27 @@
   enter the word counter as Python-supplied tables (trusted base); the
   striding, the per-job counting incl. the `nn = -1` start, the Counter merge
   and the punctuation strip are the model's.
+
+  Python's `int()` (the frequency column) is a PARAMETER `intOf` of the event
+  counter: the theorems with suffix `_with` hold for EVERY `intOf : Str →
+  Option Int`, so "for every file content" is meant literally — a third column
+  `-1`, `+2`, `" 1 "`, `1_0`, a full-width digit is whatever that `int` makes of
+  it (a negative value: no event, no error).  The theorems without suffix are
+  the instance `pyInt` the driver runs.  (The earlier model accepted only
+  `[0-9]+`, so `cues_outcomes_error` asserted errors the code does not raise.)
+
+  Hypotheses carried by theorems here (for DESIGN §7): `1 ≤ n` (number of
+  jobs) everywhere; at `n = 0` `multiprocessing.Pool(0)` raises `ValueError`:
+  `zero_jobs_raises`.
+
+  Lemmas that merely restate a definition are at the end under
+  "lemmas (not property theorems)".
 -/
 import PyndlProofs.Text
 import PyndlModel.Generated
 
 namespace Pyndl.C11
 open Pyndl Pyndl.Text
-
-/-- the punctuation set the word counter strips is the literal in count.py
-    (`Generated.lean` is regenerated from /repo on every run) -/
-theorem literals_match_source : Generated.countPunct.toList = punct := by decide +kernel
 
 /-- **The `n` strided slices `islice(xs, k, None, n)`, `k < n`, partition `xs`**
     for every `n ≥ 1` — also `n > |xs|` (the surplus slices are empty), also
@@ -41,11 +52,20 @@ theorem job_count_is_length (es : List TEvent) : (jobCuesOutcomes es).n = (es.le
 theorem empty_slice_counts_zero : (jobCuesOutcomes []).n = 0 := by
   simpa using Text.job_n []
 
-/-- **`cues_outcomes` is exact for every `n_jobs ≥ 1`.** If the file reads as the
-    event list `evs` (with a frequency column: every line repeated `int(f)` times,
-    C07 `freq_expand`), then `cues_outcomes(path, n_jobs=n)` returns, for every
-    `n ≥ 1`: `n_events = |evs|`, and for every name `x` the number of occurrences
-    of `x` as a cue resp. as an outcome in `evs`. -/
+/-- **`cues_outcomes` is exact for every `n_jobs ≥ 1`, for every `int`.** If the
+    file reads as the event list `evs` (with a frequency column: every line
+    repeated `max (int f) 0` times, C07 `freq_expand_with`), then
+    `cues_outcomes(path, n_jobs=n)` returns, for every `n ≥ 1`: `n_events =
+    |evs|`, and for every name `x` the number of occurrences of `x` as a cue
+    resp. as an outcome in `evs`. -/
+theorem cues_outcomes_exact_with (intOf : Str → Option Int) (n : Nat) (hn : 1 ≤ n) (content : Str)
+    (evs : List TEvent) (h : parseFileWith intOf 0 1 content = some evs) :
+    ∃ r, cuesOutcomesWith intOf n content = some r ∧ r.n = (evs.length : Int) ∧
+      (∀ x, cGet r.cues x = (evs.map (fun e => e.cues.count x)).sum) ∧
+      (∀ x, cGet r.outcomes x = (evs.map (fun e => e.outcomes.count x)).sum) :=
+  Text.cuesOutcomesWith_exact intOf n hn content evs h
+
+/-- the instance the driver runs -/
 theorem cues_outcomes_exact (n : Nat) (hn : 1 ≤ n) (content : Str) (evs : List TEvent)
     (h : parseFile 0 1 content = some evs) :
     ∃ r, cuesOutcomes n content = some r ∧ r.n = (evs.length : Int) ∧
@@ -74,12 +94,12 @@ theorem outcome_counts_exact (n : Nat) (hn : 1 ≤ n) (content : Str) (evs : Lis
   simp [hr, h3]
 
 /-- the direct one-pass count the harness also evaluates is the same function. -/
-theorem direct_is_one_job (content : Str) (evs : List TEvent) (h : parseFile 0 1 content = some evs)
-    (x : Str) :
-    (directCuesOutcomes content).map (fun r => (r.n, cGet r.cues x, cGet r.outcomes x))
+theorem direct_is_one_job (intOf : Str → Option Int) (content : Str) (evs : List TEvent)
+    (h : parseFileWith intOf 0 1 content = some evs) (x : Str) :
+    (directCuesOutcomesWith intOf content).map (fun r => (r.n, cGet r.cues x, cGet r.outcomes x))
       = some ((evs.length : Int), (evs.map (fun e => e.cues.count x)).sum,
               (evs.map (fun e => e.outcomes.count x)).sum) := by
-  simp [directCuesOutcomes, h, Text.job_n, Text.job_cues, Text.job_outcomes]
+  simp [directCuesOutcomesWith, h, Text.job_n, Text.job_cues, Text.job_outcomes]
 
 /-- **`words_symbols` is exact for every `n_jobs ≥ 1`**: given the words of all
     lines `ws` (after `split`, `strip`, punctuation strip, optional `lower`, empty
@@ -92,30 +112,82 @@ theorem word_counts_exact (lower : Option (List (Str × Str))) (n : Nat) (hn : 1
       (∀ x, cGet r.symbols x = (ws.map (symCount x)).sum) :=
   Text.wordsSymbols_exact lower n hn lines ws h
 
-/-- counters only ever get a key once (`c[k] += n` on an association list), so
-    the `cGet` used above is the value printed for that key. -/
-theorem counter_keys_unique (c : Counter) (a : Str) (n : Nat) (h : (c.map Prod.fst).Nodup) :
-    ((cAdd c a n).map Prod.fst).Nodup :=
-  (Text.cAdd_keys_nodup c a n h).1
+/-- **the returned counters have distinct keys and no zero counts** — for every
+    `int`, every number of jobs, every file for which the call returns: every
+    key occurs once, every stored count is positive, a name is a key exactly
+    when it occurs (`cGet > 0`), and `cGet` (which would sum duplicate keys) is
+    the count stored under the key.  In particular an event line with
+    frequency 0 or a negative frequency contributes no key. -/
+theorem counters_distinct_positive (intOf : Str → Option Int) (n : Nat) (content : Str) (r : CO)
+    (h : cuesOutcomesWith intOf n content = some r) :
+    (r.cues.map Prod.fst).Nodup ∧ (r.outcomes.map Prod.fst).Nodup ∧
+    (∀ kn ∈ r.cues ++ r.outcomes, 0 < kn.2) ∧
+    (∀ x, x ∈ r.cues.map Prod.fst ↔ 0 < cGet r.cues x) ∧
+    (∀ x, x ∈ r.outcomes.map Prod.fst ↔ 0 < cGet r.outcomes x) ∧
+    (∀ x k, (x, k) ∈ r.cues → cGet r.cues x = k) ∧
+    (∀ x k, (x, k) ∈ r.outcomes → cGet r.outcomes x = k) := by
+  obtain ⟨hc, ho⟩ := Text.cuesOutcomesWith_ok intOf n content r h
+  refine ⟨hc.1, ho.1, ?_, hc.mem_iff, ho.mem_iff, fun x k => hc.get_eq x k, fun x k => ho.get_eq x k⟩
+  intro kn hkn
+  rcases List.mem_append.mp hkn with h' | h'
+  · exact hc.2 kn h'
+  · exact ho.2 kn h'
 
-/-- the error direction: a line that raises `ValueError` is read by one of the
+/-- the same for `words_symbols`. -/
+theorem word_counters_distinct_positive (lower : Option (List (Str × Str))) (n : Nat)
+    (lines : List (List Str)) (r : WS) (h : wordsSymbols lower n lines = some r) :
+    (r.words.map Prod.fst).Nodup ∧ (r.symbols.map Prod.fst).Nodup ∧
+    (∀ kn ∈ r.words ++ r.symbols, 0 < kn.2) ∧
+    (∀ x, x ∈ r.words.map Prod.fst ↔ 0 < cGet r.words x) ∧
+    (∀ x, x ∈ r.symbols.map Prod.fst ↔ 0 < cGet r.symbols x) := by
+  obtain ⟨hw, hs⟩ := Text.wordsSymbols_ok lower n lines r h
+  refine ⟨hw.1, hs.1, ?_, hw.mem_iff, hs.mem_iff⟩
+  intro kn hkn
+  rcases List.mem_append.mp hkn with h' | h'
+  · exact hw.2 kn h'
+  · exact hs.2 kn h'
+
+/-- the error direction, for every `int`: a line that raises `ValueError` (not 2
+    or 3 columns, or a third column THAT `int` rejects) is read by one of the
     `n ≥ 1` jobs, so `cues_outcomes` raises for every `n_jobs`. -/
+theorem cues_outcomes_error_with (intOf : Str → Option Int) (n : Nat) (hn : 1 ≤ n) (content : Str)
+    (h : parseFileWith intOf 0 1 content = none) : cuesOutcomesWith intOf n content = none :=
+  Text.cuesOutcomesWith_error intOf n hn content h
+
+/-- the instance -/
 theorem cues_outcomes_error (n : Nat) (hn : 1 ≤ n) (content : Str)
     (h : parseFile 0 1 content = none) : cuesOutcomes n content = none :=
   Text.cuesOutcomes_error n hn content h
 
-/-- **Independence of the number of processes**: what can be observed of the
-    result (`n_events`, every cue count, every outcome count, or the error) is the
-    same for any two numbers of jobs `n, m ≥ 1` — for every file content. -/
+/-- **`n_jobs = 0` raises `ValueError`** (`multiprocessing.Pool(0)`: "Number of
+    processes must be at least 1") for both counters, whatever the file is — the
+    branch `1 ≤ n` excludes.  Checked on /repo. -/
+theorem zero_jobs_raises (intOf : Str → Option Int) (content : Str)
+    (lower : Option (List (Str × Str))) (lines : List (List Str)) :
+    cuesOutcomesWith intOf 0 content = none ∧ cuesOutcomes 0 content = none ∧
+    wordsSymbolsE lower 0 lines = .error .value :=
+  ⟨Text.cuesOutcomesWith_zero intOf content, Text.cuesOutcomesWith_zero pyInt content, rfl⟩
+
+/-- **Independence of the number of processes, for every `int`**: what can be
+    observed of the result (`n_events`, every cue count, every outcome count, or
+    the error) is the same for any two numbers of jobs `n, m ≥ 1` — for every
+    file content (no restriction on the third column: it is read by `intOf`). -/
+theorem n_jobs_irrelevant_with (intOf : Str → Option Int) (n m : Nat) (hn : 1 ≤ n) (hm : 1 ≤ m)
+    (content : Str) (x : Str) :
+    (cuesOutcomesWith intOf n content).map (fun r => (r.n, cGet r.cues x, cGet r.outcomes x))
+      = (cuesOutcomesWith intOf m content).map (fun r => (r.n, cGet r.cues x, cGet r.outcomes x)) := by
+  cases h : parseFileWith intOf 0 1 content with
+  | none => rw [cues_outcomes_error_with intOf n hn content h, cues_outcomes_error_with intOf m hm content h]
+  | some evs =>
+    obtain ⟨r, hr, a1, a2, a3⟩ := cues_outcomes_exact_with intOf n hn content evs h
+    obtain ⟨r', hr', b1, b2, b3⟩ := cues_outcomes_exact_with intOf m hm content evs h
+    simp [hr, hr', a1, a2, a3, b1, b2, b3]
+
+/-- the instance -/
 theorem n_jobs_irrelevant (n m : Nat) (hn : 1 ≤ n) (hm : 1 ≤ m) (content : Str) (x : Str) :
     (cuesOutcomes n content).map (fun r => (r.n, cGet r.cues x, cGet r.outcomes x))
-      = (cuesOutcomes m content).map (fun r => (r.n, cGet r.cues x, cGet r.outcomes x)) := by
-  cases h : parseFile 0 1 content with
-  | none => rw [cues_outcomes_error n hn content h, cues_outcomes_error m hm content h]
-  | some evs =>
-    obtain ⟨r, hr, a1, a2, a3⟩ := cues_outcomes_exact n hn content evs h
-    obtain ⟨r', hr', b1, b2, b3⟩ := cues_outcomes_exact m hm content evs h
-    simp [hr, hr', a1, a2, a3, b1, b2, b3]
+      = (cuesOutcomes m content).map (fun r => (r.n, cGet r.cues x, cGet r.outcomes x)) :=
+  n_jobs_irrelevant_with pyInt n m hn hm content x
 
 -- NOT PROVED: the analogous error direction for `wordsSymbols` (a missing entry of
 -- the Python-supplied `lower` table); it is not a behaviour of pyndl but of the
@@ -129,9 +201,47 @@ example :
     (parseFile 0 1 content).map List.length = some 3 ∧
     (cuesOutcomes 5 content).map (fun r => (r.n, cGet r.cues ['a'], cGet r.outcomes ['x']))
       = some (3, 2, 3) ∧
+    -- the line with frequency 0 contributes no key: `b` occurs only in the first line
+    (cuesOutcomes 5 content).map (fun r => (r.cues.map Prod.fst, r.outcomes.map Prod.fst))
+      = some ([['a'], ['b'], ['c']], [['x'], ['y']]) ∧
+    cuesOutcomes 0 content = none ∧
     (wordsSymbols none 2 [[['h', 'i', '!'], ['a']], [['.']], [['h', 'i']]]).map
         (fun r => (cGet r.words ['h', 'i'], cGet r.symbols ['i'], r.words.length))
       = some (2, 2, 2) := by
   decide +kernel
+
+def reviewFile : Str := "cues\toutcomes\na\tx\t-1\nb\ty\t+2\nb\ty\t 1 \nc\tz\t1_0\n".toList
+
+/-- the file of the review (third columns `-1`, `+2`, `" 1 "`, `1_0`): the code
+    counts 1·0 + 2 + 1 + 10 = 13 events (checked on /repo with `n_jobs` 1, 2, 3),
+    and so does the model; a third column `1.0` raises for every `n_jobs`;
+    `n_jobs_irrelevant_with` holds of both files without any restriction. -/
+example :
+    (cuesOutcomes 1 reviewFile).map (fun r => (r.n, r.cues, r.outcomes))
+      = some ((13 : Int), [(['b'], 3), (['c'], 10)], [(['y'], 3), (['z'], 10)]) := by
+  decide +kernel
+
+example :
+    (cuesOutcomes 3 reviewFile).map (fun r => (r.n, cGet r.cues ['b'], cGet r.cues ['a']))
+      = some ((13 : Int), 3, 0) := by
+  decide +kernel
+
+example :
+    parseFile 0 1 "cues\toutcomes\na\tx\t1.0\n".toList = none ∧
+    cuesOutcomes 2 "cues\toutcomes\na\tx\t1.0\n".toList = none := by
+  decide +kernel
+
+/-! ### lemmas (not property theorems) -/
+
+/-- (definitional: `decide` on a regenerated constant) the punctuation set the word counter strips is the literal in count.py
+    (`Generated.lean` is regenerated from /repo on every run) -/
+theorem literals_match_source : Generated.countPunct.toList = punct := by decide +kernel
+
+
+/-- (lemma) counters only ever get a key once (`c[k] += n` on an association
+    list); the property statement is `counters_distinct_positive`. -/
+theorem counter_keys_unique (c : Counter) (a : Str) (n : Nat) (h : (c.map Prod.fst).Nodup) :
+    ((cAdd c a n).map Prod.fst).Nodup :=
+  (Text.cAdd_keys_nodup c a n h).1
 
 end Pyndl.C11
